@@ -162,5 +162,8 @@ func Yield() { nativeYield() }
 // computed once per key and shared by all paths.
 func Memo(key string, f func() interface{}) interface{} { return f() }
 
+// SyncMapPoints makes every sync.Map operation a scheduling point (engine only).
+func SyncMapPoints() {}
+
 // Preemptions bounds the non-forced thread switches explored by the engine.
 func Preemptions(n int) {}
